@@ -273,4 +273,35 @@ def r14_6(run):
     run.floor(4)
 
 
-RULES = [("R14.1", r14_1), ("R14.5", r14_5), ("R14.6", r14_6)]
+def r14_7(run):
+    """the call layer that init_options merges is exactly what the caller passed: every call site of init_options in the package
+    hands over its own **kwargs unchanged (no filtering, no defaults mixed in), so an option given in the call -- including the
+    value None and unknown options -- reaches the merge"""
+    from ..arrnf import ANF, show as tshow
+    ix = run.index
+    io = ix.func("pandapipes.pf.pipeflow_setup.init_options")
+    n = 0
+    for f in ix.all_functions():
+        if ".test." in f.qualname or f.qualname == io.qualname:
+            continue
+        if not any(isinstance(c.func, (ast.Name, ast.Attribute)) and (getattr(c.func, "id", None) == "init_options" or getattr(c.func, "attr", None) == "init_options")
+                   for c in ast.walk(f.node) if isinstance(c, ast.Call)):
+            continue
+        r = ANF(ix, f).run()
+        for c in r.calls():
+            if c.fn != ("f", io.qualname):
+                continue
+            n += 1
+            run.analysed(f)
+            kwname = f.node.args.kwarg.arg if f.node.args.kwarg else None
+            star = [v for k, v in c.kw if k == "**"]
+            named = [k for k, v in c.kw if k != "**"]
+            ok = kwname is not None and star == [("n", kwname)] and not named and len(c.args) == 1
+            run.ob("%s|call-layer-passed-unchanged" % f.short, ok,
+                   "%s hands its keyword arguments to init_options unchanged" % f.short, run.where(f, c.node),
+                   detail="**%s %s" % ([tshow(s_)[:120] for s_ in star], named))
+    run.ob("init_options-call-sites", n >= 1, "call sites of init_options: %d" % n, "src/pandapipes")
+    run.floor(2)
+
+
+RULES = [("R14.1", r14_1), ("R14.5", r14_5), ("R14.6", r14_6), ("R14.7", r14_7)]
